@@ -312,6 +312,8 @@ FUNCTIONS['LOOKUP'] = wrap_ufunc(
 def args_parser_hlookup(val, vec, index, match_type=1, transpose=False):
     raise_errors(match_type, index)
     index = int(_text2num(np.ravel(index)[0]) - 1)
+    if index < 0:
+        raise FoundError(err=Error.errors['#VALUE!'])
     vec = np.matrix(vec)
     if transpose:
         vec = vec.T
